@@ -23,6 +23,13 @@ def app(environ, start_response):
     return [body]
 '''
 
+HANGBOOT_SRC = '''
+import os, time
+if os.path.exists(os.path.join(os.path.dirname(os.path.abspath(__file__)), "HANG")):
+    time.sleep(3600)            # the import of the application blocks (a dead backend, a lock, ...)
+from app import app
+'''
+
 BOOTFAIL_SRC = '''
 import time
 time.sleep(0.4)
@@ -58,6 +65,8 @@ class Server:
             fh.write(APP_SRC)
         with open(os.path.join(self.dir, "bootfail.py"), "w") as fh:
             fh.write(BOOTFAIL_SRC)
+        with open(os.path.join(self.dir, "hangapp.py"), "w") as fh:
+            fh.write(HANGBOOT_SRC)
         self.sock = os.path.join(self.dir, "s.sock")
         self.pidfile = os.path.join(self.dir, "pid")
         self.log = os.path.join(self.dir, "log.txt")
